@@ -6,13 +6,13 @@
   `PBytes` in place of `Bytes`; the control flow is copied from there, the slice operations are
   read off the Go source (line numbers of the repaired tree):
 
-    av1_depacketizer.go:33   buff = make([]byte, 0)                                `make []`
-    :47,52                   d.buffer = nil                                        `nil`
+    av1_depacketizer.go:31   buff = make([]byte, 0)                                `make []`
+    :46,51                   d.buffer = nil                                        `nil`
     :66,…                    payload[offset:], payload[offset:offset+lengthField]  `drop`, `take`
-    :105-109                 obuBuffer = make(len(d.buffer)+lengthField); copy; copy; d.buffer = nil
-    :111                     obuBuffer = payload[offset : offset+lengthField]      sub-slice of the input
-    :117                     d.buffer = append([]byte{}, obuBuffer...)             `keep obuBuffer`, keep = copy
-    :153,156-159             buff = append(buff, …)                                `append`
+    :106-110                 obuBuffer = make(len(d.buffer)+lengthField); copy; copy; d.buffer = nil
+    :112                     obuBuffer = payload[offset : offset+lengthField]      sub-slice of the input
+    :118                     d.buffer = append([]byte{}, obuBuffer...)             `keep obuBuffer`, keep = copy
+    :157,160-163             buff = append(buff, …)                                `append`
 
   The retention step is a parameter `keep`, so that the code before the repair of DESIGN §7
   (`d.buffer = obuBuffer`, `keep = id`) is the same transcription with one operation changed.
